@@ -3,8 +3,39 @@ from . import semacheck as SC
 from . import oracle_sema_a as OA
 
 
+INC_NAMES = ["lib/stdgates.inc", "./stdgates.inc", "a/b/stdgates.inc", "../stdgates.inc", "stdgates.inc.bak", "mystdgates.inc",
+             "STDGATES.INC", "stdgates.inc ", " stdgates.inc", "x.inc", "", ".", "/", "/nonexistent/x.inc", "é.inc", "a b.inc",
+             "stdgates", "stdgates.inc/", "x.inc\\n"]
+
+
+def include_cases(ctx, recs, failures):
+    """programs that include files by name (none exists): the pass must return (FileNotFound diagnostics), whatever
+    the name looks like; run through the harness mode `include`, which evaluates real includes"""
+    import json, random
+    from . import common as C
+    from . import pipeline as PL
+    rnd = random.Random(ctx.seed + 5)
+    cases = []
+    tails = ["qubit q;\n", "int x = 1;\n", "include \"stdgates.inc\";\nqubit q;\nh q;\n", ""]
+    for n in INC_NAMES:
+        for t in tails:
+            for pre in ("", "int y;\n"):
+                cases.append({"id": f"i{len(cases)}", "files": {}, "main": pre + f'include "{n}";\n' + t, "search": rnd.choice([None, ["d1"]]), "env": None})
+                cases.append({"id": f"i{len(cases)}", "files": {}, "main": pre + f'include "{n}";\ninclude "{rnd.choice(INC_NAMES)}";\n' + t, "search": None, "env": None})
+    out = C.run_impl(ctx, "include", [json.dumps(c) for c in cases], tag="c03inc")
+    n = 0
+    for c, o in zip(cases, out):
+        n += 1
+        site = PL.canon_panic(o)
+        if site:
+            failures.append({"case": json.dumps(c), "check": "no_panic", "detail": {"main": c["main"], "impl": o[:300]},
+                             "guards": {"site:" + site}, "model_agrees": True,
+                             "replay_how": "echo '<case json>' | /verif/harness/target/debug/oq3-run include"})
+    ctx.coverage["include_name_cases"] = n
+
+
 def check(ctx):
-    return SC.run(ctx, "C03", ["Oq3.Props.C03"], [OA], SC.default_programs(ctx),
+    return SC.run(ctx, "C03", ["Oq3.Props.C03"], [OA], SC.default_programs(ctx), post=include_cases, rule=
                   "generated programs (vf/gen_prog.py: every statement arm of the pass, every scalar type x width x const x initializer form, small name pool, wrong arities/kinds, low-probability panic-prone constructs) through parse_source_string; oracle: no panic, depth = 1 at the end; non-trivial = analysed program on which every oracle clause held",
                   trusted=["thread stack depth is outside the model (generated nesting is bounded)"],
                   assumptions=["totality on a `Supported` fragment (sema_total) is NOT proved; panic-freedom is explored by this run, the panic sites are proved to be a fixed finite set (panic_sites)"])
